@@ -273,6 +273,27 @@ Proof.
       rewrite E1. unfold mu; simp. rewrite mem_app. cbn [mem existsb]. rewrite N.eqb_refl, orb_true_r. cbn. lia.
 Qed.
 
+(* (c) an enabled step of the pool or of a running job stays enabled until it is taken: no other step disables it *)
+Ltac pers_fin :=
+  simp; try congruence;
+  repeat match goal with
+  | |- context [nth_error (upd ?a ?x ?l) ?b] =>
+      destruct (Nat.eq_dec a b) as [?|?]; [subst; try congruence|rewrite (nth_upd_neq a b x l) by assumption]
+  end;
+  repeat match goal with H : _ = _ |- _ => rewrite H end; try discriminate; try congruence.
+
+Theorem enabled_step_persists s l l' s' : pre_release (dp s) = true -> internal l = true -> l <> RelCall ->
+  step s l <> None -> step s l' = Some s' -> l' <> l -> l' <> RelCall -> step s' l <> None.
+Proof.
+  intros Hp Hi Hl Hen Hs Hne Hl'.
+  destruct l; cbn in Hi; try discriminate; try congruence; unfold Gpool.step in Hen;
+    repeat match goal with
+    | H : context [match ?x with _ => _ end] |- _ => destruct x eqn:?; try discriminate; try (exfalso; apply Hen; reflexivity)
+    end.
+  all: destruct l'; try congruence; unfold Gpool.step in Hs; brk; injection Hs as <-; unfold Gpool.step; pers_fin.
+  all: pers_fin.
+Qed.
+
 (* ---------- finite form of the conclusion ---------- *)
 (* number of steps of an execution that bring j closer to completion *)
 Fixpoint helpful (j : job) (s : st) (ls : list label) : nat :=
@@ -301,3 +322,14 @@ Proof.
   intros Hge. apply mu_zero_iff. lia.
 Qed.
 End Fair.
+
+(* a concrete instance: two workers, a queue of one; job 3 is queued behind job 2 (in the dispatcher's hand) and job 1 (running);
+   while jobs 4 and 5 are sent behind it, 13 of the 19 steps bring job 3 closer and it finishes; job 5 is still queued *)
+Example fair_example :
+  let s := match run 2 1 (init 2) [SubCall 1; SubCall 2; SubCall 3; Submit 1; DTake; Submit 2; WorkerReg 0; DWorker; Hand; DTake; Submit 3]%N with
+           | Some s => s | None => init 2 end in
+  let sched := [SubCall 4; JStart 0; WorkerReg 1; DWorker; Hand; DTake; Submit 4; SubCall 5; JEnd 0; JobEnd 0; WorkerReg 0;
+                DWorker; Hand; DTake; Submit 5; JStart 0; SubCall 6; JEnd 0; JobEnd 0]%N in
+  pre_release (dp s) = true /\ In 3%N (subm s) /\ mu 3%N s = 33 /\ mu 1%N s = 3 /\ mu 2%N s = 25 /\ helpful 2 1 3%N s sched = 13 /\
+  match run 2 1 s sched with Some s' => mu 3%N s' = 0 /\ fin s' = [1; 3]%N /\ jobq s' = [5]%N | None => False end.
+Proof. vm_compute. repeat split; auto. Qed.
